@@ -7,7 +7,7 @@ mod scn_time;
 mod scn_inbound;
 
 fn all_scenarios() -> Vec<&'static dyn Scenario> {
-    vec![&scenarios::Basic, &scenarios::Close, &scenarios::Death, &scn_rpc::Rpc, &scn_rpc::ChClose, &scn_rpc::Wire, &scn_batch::Batch, &scn_hs::Hs, &scn_time::Hb, &scn_time::Throttle, &scn_time::Tuned, &scn_inbound::Inbound, &scn_inbound::ConsumerLife, &scn_inbound::ConsumerRace, &scn_inbound::Listeners, &scn_inbound::Violations]
+    vec![&scenarios::Basic, &scenarios::Close, &scenarios::Death, &scn_rpc::Rpc, &scn_rpc::ChClose, &scn_rpc::Ids, &scn_rpc::Wire, &scn_batch::Batch, &scn_hs::Hs, &scn_time::Hb, &scn_time::Throttle, &scn_time::Tuned, &scn_inbound::Inbound, &scn_inbound::Segments, &scn_inbound::ConsumerLife, &scn_inbound::ConsumerRace, &scn_inbound::Listeners, &scn_inbound::Violations]
 }
 
 use serde_json::{json, Value};
@@ -317,12 +317,26 @@ fn url_slice(argv: &[String]) {
         ("", "/x", "auth_mechanism=external&heartbeat=9", "EXTERNAL", "", "x", 9, 2047),
         ("%75ser:p%2Fw@", "", "connection_timeout=5000&heartbeat=61", "PLAIN", "\u{0}user\u{0}p/w", "/", 60, 2047),
     ];
-    for (ui, path, query, mech, resp, vhost, hb, chmax) in cases {
+    // host forms: an IPv4 literal, a name (resolved, possibly to several addresses that are
+    // tried in turn) and a bracketed IPv6 literal (skipped where the sandbox has no ::1)
+    let mut all: Vec<(&str, &str, (&str, &str, &str, &str, &str, &str, u16, u16))> = cases.iter().map(|c| ("127.0.0.1", "127.0.0.1:0", *c)).collect();
+    all.push(("localhost", "127.0.0.1:0", cases[1]));
+    all.push(("[::1]", "[::1]:0", cases[1]));
+    all.push(("[::1]", "[::1]:0", cases[4]));
+    let mut skipped = Vec::new();
+    for (host, bind, (ui, path, query, mech, resp, vhost, hb, chmax)) in all {
+        let listener = match std::net::TcpListener::bind(bind) {
+            Ok(l) => l,
+            Err(e) => {
+                skipped.push(format!("{}: {}", bind, e));
+                continue;
+            }
+        };
         part.evaluations += 1;
         part.distinct_nontrivial += 1;
-        let listener = std::net::TcpListener::bind("127.0.0.1:0").unwrap();
-        let port = listener.local_addr().unwrap().port();
-        let url = format!("amqp://{}127.0.0.1:{}{}{}{}", ui, port, path, if query.is_empty() { "" } else { "?" }, query);
+        let addr = listener.local_addr().unwrap();
+        let port = addr.port();
+        let url = format!("amqp://{}{}:{}{}{}{}", ui, host, port, path, if query.is_empty() { "" } else { "?" }, query);
         let server = std::thread::spawn(move || {
             let mut broker = StdBroker::new(Handshake::default());
             let (mut sock, _) = listener.accept().unwrap();
@@ -346,6 +360,10 @@ fn url_slice(argv: &[String]) {
             broker.decoded()
         });
         let r = amiquip::Connection::insecure_open(&url).and_then(|c| c.close());
+        if r.is_err() {
+            // the client may never have connected: release the server's accept()
+            let _ = std::net::TcpStream::connect(addr);
+        }
         let frames = server.join().unwrap_or_default();
         let mut got = (String::new(), String::new(), String::new(), 0u16, 0u16);
         for f in frames.into_iter().flatten() {
@@ -368,5 +386,6 @@ fn url_slice(argv: &[String]) {
         }
         part.sample(json!({"url": url.replace(&port.to_string(), "PORT"), "broker_saw": format!("{:?}", got)}));
     }
+    part.extra.insert("skipped_hosts".into(), json!(skipped));
     part.finish(out.as_deref());
 }
